@@ -35,6 +35,10 @@ import (
 
 var family, damaged, profiles, rejected [][]byte
 
+// bigPNG: a PNG whose profile is 384 KiB of incompressible bytes - a load that takes long enough to be preempted
+// in the middle whenever more goroutines than processors are busy
+var bigPNG []byte
+
 var (
 	srcRGBA64 *image.RGBA64
 	srcNRGBA  *image.NRGBA
@@ -89,6 +93,17 @@ func setup() {
 	}
 	canvas = image.NewRGBA64(image.Rect(0, 0, 64*5, 4*9))
 	buildStructured()
+	{
+		prof := make([]byte, 384<<10)
+		x := uint32(2463534242)
+		for i := range prof {
+			x ^= x << 13
+			x ^= x >> 17
+			x ^= x << 5
+			prof[i] = byte(x)
+		}
+		bigPNG, _ = build.PNG{W: 31, H: 17, Depth: 8, ColorType: 2, Pre: []build.Chunk{build.ICCPChunk("big", prof, 1)}, IDAT: []byte{1}}.Bytes()
+	}
 	files = map[string][]byte{}
 	for _, s := range seeds.Built() {
 		switch s.Name {
@@ -421,6 +436,13 @@ func run(op trial.Op, g int) uint64 {
 			d = fmt.Sprint(digest(buf.Bytes()))
 		}
 		return digest(o.OK, o.Format, o.W, o.H, o.Bits, o.ICC, o.ICCErr, d)
+	case "LoadBig":
+		target := "png"
+		if a%2 == 0 {
+			target = "auto"
+		}
+		o := ld.Run(target, bytes.NewReader(bigPNG))
+		return digest(o.OK, o.Format, o.W, o.H, len(o.ICC), o.ICC, o.ICCErr)
 	case "LoadFamily":
 		// one of 240 files with different profiles; every fourth call loads a damaged file first
 		if a%4 == 0 {
